@@ -9,7 +9,8 @@ RULE = ("netlists of the restricted subset (single module, no comments, one name
         "connected/unconnected/omitted pins, every output driven) in every statement order sampled, rendered plain, "
         "tight, and with fuzzed spaces/tabs/newlines (never between `)` and `;`); names from a plain universe and one "
         "containing x_input, my_output, assign1, tie0, wire_a; plus the bundled c17; both parsers' circuits compared: "
-        "io, registry, pin nets, graph identity modulo constant-node names, function; non-trivial = >=2 items")
+        "io, registry, pin nets, graph identity modulo constant-node names, function; non-trivial = >=2 items"
+        "; plus: blackbox types whose pins and names (BUF, Nand) vary between netlists parsed by one process")
 BOUND = "<= 4 inputs, <= 7 items, <= 2 blackbox instances; 4/16 hash seeds"
 ODD = ["x_input", "my_output", "assign1", "tie0", "wire_a", "inputx", "outputy", "b0", "b1", "b_0", "opb0", "a", "b", "c", "d", "e", "f", "g", "h", "k", "m"]
 
